@@ -481,3 +481,52 @@ func VerifC15_DefaultMaxDelay() {
 	rt.Assert(atomic.LoadInt32(microTasks) == 0, "defaultdelay/global-counter-zero-after-all-finished")
 	rt.Reach("defaultdelay-end")
 }
+
+// ---- O8: once all microtasks have finished - with the limit reached before
+// and nobody waiting - the next microtask is admitted immediately, not at the
+// scheduler's next one-second re-check ----
+
+func VerifC15_AdmittedImmediatelyAfterAllFinished() {
+	rt.SchedYieldOnly(true)
+	m := c15Setup(2)
+	gate := make(chan struct{})
+	entered := make(chan struct{}, 2)
+	var wg sync.WaitGroup
+	for i := 0; i < 2; i++ {
+		wg.Add(1)
+		low := rt.Bool("holderLow" + string(rune('0'+i)))
+		go func() {
+			defer wg.Done()
+			hold := func(context.Context) error {
+				entered <- struct{}{}
+				<-gate
+				return nil
+			}
+			if low {
+				_ = m.RunLowPriorityMicroTask("holder", time.Hour, hold)
+			} else {
+				_ = m.RunMicroTask("holder", time.Hour, hold)
+			}
+		}()
+	}
+	<-entered
+	<-entered
+	// let the scheduler notice that the limit is reached
+	time.Sleep(10 * time.Millisecond)
+	close(gate)
+	wg.Wait()
+	rt.Assert(atomic.LoadInt32(microTasks) == 0, "afterall/global-counter-zero")
+	rt.Assert(atomic.LoadInt32(m.microTaskCnt) == 0, "afterall/module-counter-zero")
+	laterLow := rt.Bool("laterLow")
+	t1 := time.Now()
+	ran := false
+	fn := func(context.Context) error { ran = true; return nil }
+	if laterLow {
+		_ = m.RunLowPriorityMicroTask("later", time.Hour, fn)
+	} else {
+		_ = m.RunMicroTask("later", time.Hour, fn)
+	}
+	rt.Assert(ran, "afterall/later-microtask-runs")
+	rt.Assert(time.Since(t1) < 500*time.Millisecond, "afterall/later-microtask-admitted-immediately")
+	rt.Reach("afterall-end")
+}
